@@ -74,7 +74,7 @@ func (c *rconn) reader() {
 				a["sub"] = m.SubscriptionID
 				l := c.conc.Label(m.Event.ID)
 				a["id"] = l
-				if e, ok := c.evOf(l); ok && e.TS == m.Event.CreatedAt && e.Kind == m.Event.Kind {
+				if e, ok := c.evOf(l); ok && abs.TS(e.TS) == m.Event.CreatedAt && e.Kind == m.Event.Kind {
 					a["ev"] = e
 				} else {
 					a["ev"] = abs.Event{ID: "?changed"}
@@ -317,6 +317,181 @@ func runRouterScenario(run *core.Run, seed int64, stallScenario bool) (tv.Trace,
 	return tr, problem
 }
 
+// runRouterChurn: publications race with registry writes. Two long-open match-everything
+// subscribers; one of them keeps opening and closing a second (never matching) subscription;
+// hidden connections connect, subscribe (never matching) and disconnect all the time; two
+// publishers publish unique events. The hidden connections never receive an event and are left
+// out of the trace; everything else is observed as in runRouterScenario.
+func runRouterChurn(run *core.Run, seed int64, npub int) (tv.Trace, string) {
+	r := rand.New(rand.NewSource(seed))
+	conc := abs.NewConc()
+	rec := &rrec{}
+	router := mocrelay.NewRouterHandler(4096)
+	var evMu sync.Mutex
+	evs := map[string]abs.Event{}
+	evOf := func(l string) (abs.Event, bool) { evMu.Lock(); defer evMu.Unlock(); e, ok := evs[l]; return e, ok }
+	root, rootCancel := context.WithCancel(context.Background())
+	defer rootCancel()
+	var conns []*rconn
+	for i := 1; i <= 4; i++ {
+		ctx, cancel := context.WithCancel(root)
+		c := &rconn{id: i, ctx: ctx, cancel: cancel, send: make(chan mocrelay.ServerMsg), recv: make(chan mocrelay.ClientMsg), done: make(chan error, 1),
+			rec: rec, conc: conc, evOf: evOf, eose: map[string]int{}, oks: map[string]int{}, gotEv: map[string]bool{}}
+		conns = append(conns, c)
+		go func() { c.done <- router.ServeNostr(c.ctx, c.send, c.recv) }()
+		go c.reader()
+	}
+	problem := ""
+	var pmu sync.Mutex
+	setProblem := func(s string) { pmu.Lock(); if problem == "" { problem = s }; pmu.Unlock() }
+	all := []abs.Filter{{}}
+	never := []abs.Filter{{Kinds: abs.IntSet{P: true, S: []int64{7}}}}
+	req := func(c *rconn, sub string, fs []abs.Filter, n int) bool {
+		a := rmsg("REQ")
+		a["sub"] = sub
+		a["fs"] = abs.NormFilters(fs)
+		return c.offer(&mocrelay.ClientReqMsg{SubscriptionID: sub, ReqFilters: conc.Filters(fs)}, a) &&
+			c.wait(func() bool { return c.eose[sub] >= n }, 3*time.Second)
+	}
+	for _, c := range conns[:2] {
+		if !req(c, "s0", all, 1) {
+			setProblem(fmt.Sprintf("connection %d: REQ s0 not answered by EOSE within 3s", c.id))
+		}
+	}
+	stop := make(chan struct{})
+	var bg sync.WaitGroup
+	// hidden connections: connect, subscribe, disconnect
+	for h := 0; h < 4; h++ {
+		bg.Add(1)
+		go func() {
+			defer bg.Done()
+			fs := conc.Filters(never)
+			for {
+				select {
+				case <-stop:
+					return
+				default:
+				}
+				ctx, cancel := context.WithCancel(root)
+				send := make(chan mocrelay.ServerMsg, 4)
+				recv := make(chan mocrelay.ClientMsg)
+				done := make(chan error, 1)
+				go func() { done <- router.ServeNostr(ctx, send, recv) }()
+				select {
+				case recv <- &mocrelay.ClientReqMsg{SubscriptionID: "h", ReqFilters: fs}:
+					select {
+					case <-send:
+					case <-time.After(time.Second):
+					}
+				case <-time.After(time.Second):
+				}
+				cancel()
+				<-done
+			}
+		}()
+	}
+	// the second subscriber toggles another subscription
+	bg.Add(1)
+	go func() {
+		defer bg.Done()
+		c := conns[1]
+		for n := 1; n <= 30; n++ {
+			select {
+			case <-stop:
+				return
+			default:
+			}
+			if !req(c, "s1", never, n) {
+				setProblem("connection 2: REQ s1 not answered by EOSE within 3s")
+				return
+			}
+			a := rmsg("CLOSE")
+			a["sub"] = "s1"
+			if !c.offer(&mocrelay.ClientCloseMsg{SubscriptionID: "s1"}, a) {
+				return
+			}
+		}
+	}()
+	var wg sync.WaitGroup
+	var evCounter int
+	for _, c := range conns[2:] {
+		wg.Add(1)
+		go func(c *rconn, rr *rand.Rand) {
+			defer wg.Done()
+			for i := 0; i < npub; i++ {
+				evMu.Lock()
+				evCounter++
+				e := abs.Event{ID: fmt.Sprintf("p%d", evCounter), Author: []string{"a", "b"}[rr.Intn(2)], Kind: int64(1 + rr.Intn(2)), TS: int64(1 + rr.Intn(5))}
+				evs[e.ID] = e
+				evMu.Unlock()
+				a := rmsg("EVENT")
+				a["id"] = e.ID
+				a["ev"] = e
+				if !c.offer(&mocrelay.ClientEventMsg{Event: conc.Event(e, "live")}, a) {
+					return
+				}
+				if !c.wait(func() bool { return c.oks[e.ID] >= 1 }, 2*time.Second) {
+					setProblem(fmt.Sprintf("publisher %d: EVENT %s not acknowledged within 2s (churn scenario)", c.id, e.ID))
+					return
+				}
+			}
+		}(c, rand.New(rand.NewSource(r.Int63())))
+	}
+	wg.Wait()
+	close(stop)
+	bg.Wait()
+	tr := tv.Trace{Name: fmt.Sprintf("router-churn-seed%d", seed)}
+	tr.Lines = append(tr.Lines, map[string]any{"op": "reset"})
+	complete := problem == ""
+	if complete {
+		fs := []abs.Filter{{Kinds: abs.IntSet{P: true, S: []int64{9}}}}
+		for _, c := range conns {
+			if !req(c, "zz", fs, 1) {
+				complete = false
+				setProblem(fmt.Sprintf("connection %d: sentinel REQ not answered", c.id))
+			}
+		}
+		if complete {
+			p := conns[2]
+			for _, id := range []string{"z1", "z2"} {
+				mk := abs.Event{ID: id, Author: "z", Kind: 9, TS: 9}
+				evMu.Lock()
+				evs[id] = mk
+				evMu.Unlock()
+				a := rmsg("EVENT")
+				a["id"] = id
+				a["ev"] = mk
+				if !p.offer(&mocrelay.ClientEventMsg{Event: conc.Event(mk, "drain")}, a) ||
+					!p.wait(func() bool { return p.oks[id] >= 1 }, 3*time.Second) {
+					complete = false
+					setProblem(fmt.Sprintf("publisher %d: drain marker not acknowledged", p.id))
+				}
+			}
+			for _, c := range conns {
+				if !c.wait(func() bool { return c.gotEv["zz|z2"] }, 3*time.Second) {
+					complete = false
+					setProblem(fmt.Sprintf("connection %d did not receive the drain marker", c.id))
+				}
+			}
+		}
+	}
+	rootCancel()
+	for _, c := range conns {
+		select {
+		case <-c.done:
+		case <-time.After(3 * time.Second):
+			setProblem(fmt.Sprintf("connection %d: ServeNostr did not return after cancel", c.id))
+		}
+	}
+	rec.mu.Lock()
+	tr.Lines = append(tr.Lines, rec.lines...)
+	rec.mu.Unlock()
+	if complete {
+		tr.Lines = append(tr.Lines, map[string]any{"op": "quiesce", "shape": "quiesce: a must-deliver event / EOSE / OK is missing"})
+	}
+	return tr, problem
+}
+
 // C07: router.
 func C07(run *core.Run) {
 	// the mechanism model RouterMC composed with the RouterObs monitor, explored by TLC simulation
@@ -357,7 +532,22 @@ func C07(run *core.Run) {
 		distinct.Add(tr.Name)
 		run.Add("observations", int64(len(tr.Lines)))
 	}
-	out, err := tv.Validate(routerTraceSpec, nil, traces, 6)
+	// publications racing with registry writes (connect / disconnect / REQ / CLOSE of others)
+	nchurn, npub := 2, 30
+	if run.Thorough() {
+		nchurn, npub = 12, 40
+	}
+	for i := 0; i < nchurn && run.Violations() < 3; i++ {
+		tr, problem := runRouterChurn(run, run.Seed*1000+int64(i), npub)
+		if problem != "" {
+			run.Violate("progress:"+stripDigits(problem), problem+" ("+tr.Name+")", map[string]any{"trace": tr.Lines})
+		}
+		traces = append(traces, tr)
+		distinct.Add(tr.Name)
+		run.Add("observations", int64(len(tr.Lines)))
+		run.Add("churn_scenarios", 1)
+	}
+	out, err := tv.ValidateChunks(routerTraceSpec, nil, traces, 6, 40, 8)
 	if out != nil {
 		run.Add("traces_validated_against_impl", int64(out.Accepted+len(out.Rejects)))
 		run.Add("trace_lines", int64(out.Lines))
